@@ -1,5 +1,5 @@
 """C05 — shipped rewrite rules preserve semantics wherever they fire."""
-MODULES = ["contracts.c05_rules", "contracts.c05_batchnorm", "contracts.c05_basic"]
+MODULES = ["contracts.c05_rules", "contracts.c05_batchnorm", "contracts.c05_basic", "contracts.c05_casts"]
 HEAD = "import sys\nsys.path.insert(0, '/verif')\nfrom replay_lib.opt_native import main\n"
 EVIDENCE_EXTRA = {"rules_not_under_contract": "all rules except _fuse_relus_clips (4), _min_max_to_clip (4), _no_op (pattern constants), _remove_expand_before_binary_op, _basic_rules.TransposeTranspose, _fuse_batchnorm (Conv, Gemm); rules.fusion and _fuse_hardswish replace subgraphs by compound operators whose only definition is a function body or an ORT kernel"}
 
@@ -10,6 +10,8 @@ def INCLUDE(name):
 
 def replay(ob):
     n = ob["name"]
+    if "rules.CastCast" in n:
+        return HEAD + "main(['cast_cast'])\n"
     if "UnsqueezeUnsqueeze.does_not_fire" in n:
         return HEAD + "main(['ovr_unsqueeze'])\n"
     if "collapse_slice.does_not_fire" in n:
